@@ -1,5 +1,6 @@
 (* Properties/C04.v — !del / list replacement is exact; value-less !del removes the key; !clear empties. *)
 From AY Require Import Model.Merge Proofs.Delete Proofs.Walk Proofs.FactsOk.
+From AY Require Import Model.Loader Spec.Update Spec.UpdateM Proofs.MergeMode.
 
 (* lists (and function nodes) delete by default, mappings do not: regenerated facts *)
 Theorem C04_defaults : Facts.default_delete CList = true /\ Facts.default_delete CDict = false /\
@@ -56,6 +57,50 @@ Theorem C04_clear : forall e p f v root k cf cx ch,
   exists root', on_premerge e p (Leaf LClear f v) (Some root) = Ok (Comp k cf cx [], Some root', true, [p]).
 Proof. exact clear_empties. Qed.
 Print Assumptions C04_clear.
+
+(* Tagging a list !merge instead makes it combine index-wise.  THE REFINEMENT: any number of mapping documents whose only
+   merge-control marks are !merge (on any lists / mappings; any safety marks and metadata) - class NewT, decidable by the
+   checker newt_b below - flatten to the fold of the decorated update Spec.UpdateM.upd_m over their decorated plain images
+   (mp_of: every list carries the mode in which it meets an older list - replace, the default, or combine): untagged lists
+   replace whatever was there, !merge lists (and lists below !merge) combine position by position with the surplus appended,
+   mappings combine key-wise; a MergeError exactly when the update fails (a mapping addressing a non-existing list index). *)
+Theorem C04_merge_marks_refine : forall e s0 sts, NewT s0 -> is_dictk s0 = true -> Forall (fun o => NewT o /\ is_dictk o = true) sts ->
+  match fold_left (fun acc o => do a <- acc; upd_m a (mp_of o)) sts (Ok (erase s0)) with
+  | Ok r => exists n, flatten e (s0 :: sts) = Ok n /\ erase n = r
+  | Err _ _ => exists q, flatten e (s0 :: sts) = Err EMerge q
+  end.
+Proof. exact flatten_m. Qed.
+Print Assumptions C04_merge_marks_refine.
+
+(* ... and what "index-wise" means: the result is as long as the longer list; every position present in both lists holds
+   the merge of the two elements; positions beyond the older list hold the newer elements; positions beyond the newer list
+   keep the older elements *)
+Theorem C04_merge_list_elementwise : forall ol l r, upd_m (PL ol) (ML true l) = Ok (PL r) ->
+  length r = Nat.max (length ol) (length l) /\
+  (forall j v, nth_error l j = Some v ->
+     match nth_error ol j with
+     | Some ov => exists m, upd_m ov v = Ok m /\ nth_error r j = Some m
+     | None => nth_error r j = Some (mforget v)
+     end) /\
+  (forall j, (length l <= j)%nat -> nth_error r j = nth_error ol j).
+Proof. exact merge_list_elementwise. Qed.
+Print Assumptions C04_merge_list_elementwise.
+
+(* membership in the class is decidable (so the check can report, for every generated document, whether the theorem applies) *)
+Theorem C04_class_checker_sound : forall n, newt_b n = true -> NewT n.
+Proof. exact newt_b_ok. Qed.
+Print Assumptions C04_class_checker_sound.
+
+(* non-vacuity:  {a: [0, {y: 1}, 5], b: [7, 8]}  <-  {a: !merge [1, {x: 2}], b: [3], c: !merge [[9]]} *)
+Example C04_merge_example :
+  let M := mkT None (Some false) None None [] in
+  let c := mkLC (Some true) 1 in
+  let base := load_doc c (YM T0 [(KS 1, YQ T0 [YS T0 (SInt 0); YM T0 [(KS 3, YS T0 (SInt 1))]; YS T0 (SInt 5)]); (KS 2, YQ T0 [YS T0 (SInt 7); YS T0 (SInt 8)])]) in
+  let over := load_doc c (YM T0 [(KS 1, YQ M [YS T0 (SInt 1); YM T0 [(KS 4, YS T0 (SInt 2))]]); (KS 2, YQ T0 [YS T0 (SInt 3)]); (KS 5, YQ M [YQ T0 [YS T0 (SInt 9)]])]) in
+  newt_b base = true /\ newt_b over = true /\
+  option_map erase (match flatten [] [base; over] with Ok n => Some n | _ => None end)
+  = Some (PD [(KS 1, PL [PS (SInt 1); PD [(KS 3, PS (SInt 1)); (KS 4, PS (SInt 2))]; PS (SInt 5)]); (KS 2, PL [PS (SInt 3)]); (KS 5, PL [PL [PS (SInt 9)]])]).
+Proof. vm_compute. repeat split; reflexivity. Qed.
 
 (* non-vacuity: a !del mapping two levels down wipes an older subtree whose key names coincide with ancestor names *)
 Example C04_example :
